@@ -52,6 +52,7 @@ def si_ref(x, bank, width, window, fs, style, use_power, use_log, energy, log_fl
         return vals @ w
 
     cols = []
+    hsum = 1.0 if energy else 0.0
     if energy:
         mag = np.abs(x) ** p
         cols.append(integrate(mag, 0 if style == "causal" else fs))
@@ -65,6 +66,7 @@ def si_ref(x, bank, width, window, fs, style, use_power, use_log, energy, log_fl
             lo, off = mid - 1 - T, -fs + mid - 1
         ms = np.arange(lo, lo + S)
         hc = h[ms % width]
+        hsum = max(hsum, float(np.sum(np.abs(hc))))
         full = np.convolve(x.astype(np.complex128), hc) if N else np.zeros(0, complex)
         # full[t] is (x*h)[t + lo]; the frame sample j of frame k reads conv index k*fs + j + off
         cols.append(integrate(np.abs(full) ** p, lo - off))
@@ -73,4 +75,6 @@ def si_ref(x, bank, width, window, fs, style, use_power, use_log, energy, log_fl
         out = np.zeros((0, len(cols)))
     if use_log:
         out = np.log(np.maximum(out, log_floor))
+    # |x * h| <= max|x| * sum|h|: the magnitude scale against which an FFT-based convolution rounds
+    si_ref.last_yscale = (float(np.max(np.abs(x))) if N else 0.0) * hsum
     return out
